@@ -15,8 +15,67 @@ from typing import Any
 from . import core
 
 
+def inline_constants(tree):
+    """Constant propagation for the extraction passes: a module-level `NAME = <literal>` (assigned once, never re-bound) and a
+    class-level `NAME = <literal>` (never assigned through an instance) are read as their literal wherever they are used
+    (`NAME`, `self.NAME`, `cls.NAME`, `Class.NAME`), so that naming a literal does not hide it from the extraction."""
+    lits = (str, int, float, bytes)
+
+    def simple(st):
+        v = getattr(st, "value", None)
+        return isinstance(st, (ast.Assign, ast.AnnAssign)) and isinstance(v, ast.Constant) and type(v.value) in lits
+
+    stores: dict[str, int] = {}
+    for n in ast.walk(tree):
+        if isinstance(n, ast.Name) and isinstance(n.ctx, (ast.Store, ast.Del)):
+            stores[n.id] = stores.get(n.id, 0) + 1
+        elif isinstance(n, (ast.arg,)):
+            stores[n.arg] = stores.get(n.arg, 0) + 2          # a parameter of that name shadows the constant
+    mod = {}
+    for st in tree.body:
+        if simple(st):
+            for t in (st.targets if isinstance(st, ast.Assign) else [st.target]):
+                if isinstance(t, ast.Name) and stores.get(t.id) == 1:
+                    mod[t.id] = st.value
+    attr_stores = {n.attr for n in ast.walk(tree) if isinstance(n, ast.Attribute) and isinstance(n.ctx, (ast.Store, ast.Del))}
+    classes = {c.name: c for c in ast.walk(tree) if isinstance(c, ast.ClassDef)}
+    cattr: dict[str, ast.Constant] = {}
+    dup = set()
+    for c in classes.values():
+        for st in c.body:
+            if simple(st):
+                for t in (st.targets if isinstance(st, ast.Assign) else [st.target]):
+                    if isinstance(t, ast.Name) and t.id not in attr_stores:
+                        if t.id in cattr:
+                            dup.add(t.id)
+                        cattr[t.id] = st.value
+    for d in dup:
+        cattr.pop(d, None)
+    if not mod and not cattr:
+        return tree
+    import copy
+
+    class T(ast.NodeTransformer):
+        def visit_Name(self, node):
+            if isinstance(node.ctx, ast.Load) and node.id in mod:
+                return ast.copy_location(copy.deepcopy(mod[node.id]), node)
+            return node
+
+        def visit_Attribute(self, node):
+            if isinstance(node.ctx, ast.Load) and node.attr in cattr and isinstance(node.value, ast.Name) \
+                    and (node.value.id in ("self", "cls") or node.value.id in classes):
+                return ast.copy_location(copy.deepcopy(cattr[node.attr]), node)
+            return self.generic_visit(node)
+
+    return ast.fix_missing_locations(T().visit(tree))
+
+
+def parse_source(path: Path):
+    return inline_constants(ast.parse(Path(path).read_text()))
+
+
 def _tree(src: Path, rel: str):
-    return ast.parse((src / rel).read_text())
+    return parse_source(src / rel)
 
 
 def _func(t, cls: str | None, name: str):
@@ -28,6 +87,27 @@ def _func(t, cls: str | None, name: str):
                 if isinstance(f, (ast.FunctionDef, ast.AsyncFunctionDef)) and f.name == name:
                     return f
     return None
+
+
+def _with_private_callees(tree, func, depth: int = 3):
+    """`func` plus the private methods / functions of the module it calls (`x._name(...)`), transitively up to `depth`"""
+    defs: dict[str, list] = {}
+    for n in ast.walk(tree):
+        if isinstance(n, (ast.FunctionDef, ast.AsyncFunctionDef)) and n.name.startswith("_") and not n.name.startswith("__"):
+            defs.setdefault(n.name, []).append(n)
+    seen, todo = [func], [(func, 0)]
+    while todo:
+        f, d = todo.pop()
+        if d >= depth:
+            continue
+        for c in ast.walk(f):
+            if isinstance(c, ast.Call):
+                name = c.func.attr if isinstance(c.func, ast.Attribute) else getattr(c.func, "id", None)
+                for g in defs.get(name, []):
+                    if all(g is not x for x in seen):
+                        seen.append(g)
+                        todo.append((g, d + 1))
+    return seen
 
 
 def _consts(node, kinds=(int, float)):
@@ -80,7 +160,9 @@ def extract() -> tuple[dict[str, Any], list[str]]:
     # --- literals buried in function bodies
     try:
         mw = _tree(src, "server/middleware.py")
-        loop = _func(mw, "RateLimiter", "_cleanup_loop")
+        # the clean-up task of RateLimiter: `_cleanup_loop` and whatever private helpers of the class it was split into
+        loop = next((c for c in ast.walk(mw) if isinstance(c, ast.ClassDef) and c.name == "RateLimiter"), None) \
+            if _func(mw, "RateLimiter", "_cleanup_loop") is not None else None
         nums = _consts(loop) if loop else []
         sleeps = [a.value for n in ast.walk(loop) if isinstance(n, ast.Call) and getattr(n.func, "attr", "") == "sleep"
                   for a in n.args if isinstance(a, ast.Constant)] if loop else []
@@ -123,8 +205,10 @@ def extract() -> tuple[dict[str, Any], list[str]]:
                                    and isinstance(n.func, ast.Attribute) and n.func.attr in ("recv", "bio_read") for a in n.args
                                    if isinstance(a, ast.Constant) or (isinstance(a, ast.Name) and a.id in ints)})
         w = _func(tls, "TLSTransportWrapper", "write")
-        out["wrapperUsesSendall"] = bool(w) and any(isinstance(n, ast.Attribute) and n.attr == "sendall" for n in ast.walk(w)) \
-            and not any(isinstance(n, ast.Attribute) and n.attr == "send" for n in ast.walk(w))
+        # `write` and the private methods (of any class of the module) it delegates to
+        body = _with_private_callees(tls, w) if w else []
+        out["wrapperUsesSendall"] = bool(w) and any(isinstance(n, ast.Attribute) and n.attr == "sendall" for f in body for n in ast.walk(f)) \
+            and not any(isinstance(n, ast.Attribute) and n.attr == "send" for f in body for n in ast.walk(f))
     except Exception as e:  # noqa: BLE001
         problems.append(f"tls_protocol.py: {e}")
 
